@@ -1,6 +1,7 @@
 (* Property C15 — persisted artefacts reproduce the function they were saved from. *)
 From Coq Require Import String List Bool Arith.
-From TLX Require Import Model.Bits Model.Netlist Model.Persist Model.Proc Gen.Persist Gen.LibIO Proofs.C15Facts Proofs.C16Facts.
+From Coq Require Import ZArith.
+From TLX Require Import Model.Bits Model.Netlist Model.Persist Model.Proc Gen.Persist Gen.PersistSrc Gen.LibIO Proofs.C15Facts Proofs.C16Facts.
 Import ListNotations.
 
 (* a layer rebuilt with the same constructor arguments under ANY RNG state and loaded from the saved state is the saved layer,
@@ -29,8 +30,93 @@ Theorem C15_load_configuration : save_mode = AtomicRename /\ load_mode = Private
   /\ load_sets_shape_and_classes = true /\ recompile_mode = Refuses.
 Proof. exact current_disciplines. Qed.
 
+(* ---- the persistence code as written (tie: Gen/PersistSrc.v, statement by statement; kernel evaluation of dense_load / conv_load
+   on real, foreign and tampered checkpoints against load_state_dict) ---- *)
+Theorem C15_persist_source : persist_src_matches = true.
+Proof. reflexivity. Qed.
+
+(* LogicDense: EVERY well-formed layer, saved and loaded into ANY layer with the same in_dim / out_dim (whatever its own wiring and
+   gates, i.e. whatever the RNG drew at reconstruction), is restored exactly, hence computes the same eval function *)
+Theorem C15_dense_roundtrip : forall fresh l,
+  dense_wf l = true -> dl_in fresh = dl_in l -> dl_out fresh = dl_out l -> dense_load fresh (dense_save l) = Some l.
+Proof. exact dense_state_roundtrip. Qed.
+Theorem C15_dense_roundtrip_eval : forall fresh l x,
+  dense_wf l = true -> dl_in fresh = dl_in l -> dl_out fresh = dl_out l ->
+  option_map (fun l' => dense_eval l' x) (dense_load fresh (dense_save l)) = Some (dense_eval l x).
+Proof. exact dense_roundtrip_eval. Qed.
+(* whatever checkpoint is loaded (another layer's, a tampered one, one without wiring): if the load is accepted the layer is still
+   well formed - one pair per neuron, every wire an existing input (what forward and the code generator rely on: F33) *)
+Theorem C15_dense_load_sound : forall fresh sv l',
+  dense_wf fresh = true -> dense_load fresh sv = Some l' ->
+  dense_wf l' = true /\ dl_in l' = dl_in fresh /\ dl_out l' = dl_out fresh /\ dl_gates l' = sv_gates sv.
+Proof. exact dense_load_sound. Qed.
+Theorem C15_dense_load_installs : forall fresh sv l' a b,
+  dense_load fresh sv = Some l' -> sv_extra sv = Some [a; b] -> dl_a l' = a /\ dl_b l' = b.
+Proof. exact dense_load_installs. Qed.
+Theorem C15_dense_load_rejects :
+  let fresh := {| dl_in := 4; dl_out := 2; dl_gates := [3; 3]; dl_a := [0; 1]%Z; dl_b := [2; 3]%Z |} in
+  dense_load fresh {| sv_gates := [1; 2]; sv_extra := Some [[0; 9]; [1; 2]]%Z |} = None
+  /\ dense_load fresh {| sv_gates := [1; 2]; sv_extra := Some [[0; -1]; [1; 2]]%Z |} = None
+  /\ dense_load fresh {| sv_gates := [1; 2; 3]; sv_extra := Some [[0; 1; 2]; [1; 2; 3]]%Z |} = None
+  /\ dense_load fresh {| sv_gates := [1; 2]; sv_extra := Some [[0; 1]]%Z |} = None
+  /\ dense_load fresh {| sv_gates := [1; 2]; sv_extra := None |} = Some {| dl_in := 4; dl_out := 2; dl_gates := [1; 2]; dl_a := [0; 1]%Z; dl_b := [2; 3]%Z |}.
+Proof. exact dense_load_rejects. Qed.
+
+(* logic convolutions (2-D and 3-D): EVERY layer whose kernel pairs lie in its receptive field, saved and loaded into ANY layer of
+   the same geometry and tensor shapes (= built with the same constructor arguments), is restored exactly: gates, kernel pairs and
+   the index tensors forward and the code generator read (including wiring written by hand on `indices`: F33b) *)
+Theorem C15_conv_roundtrip : forall rc fresh l,
+  geom_eqb (c_geom l) (c_geom fresh) = true -> gates_shape_eqb (c_gates l) (c_gates fresh) = true ->
+  length (c_pairs l) = length (c_pairs fresh) -> forallb2 tens_shape_eqb (c_pairs l) (c_pairs fresh) = true ->
+  index_shapes_eqb (c_indices l) (c_indices fresh) = true ->
+  conv_pairs_wf l = true ->
+  conv_load rc fresh (conv_save l) = Some l.
+Proof. exact conv_state_roundtrip. Qed.
+(* whatever checkpoint is accepted: the layer keeps its own geometry, the kernel pairs fit its receptive field and channels, and
+   either the checkpoint was written by a layer of exactly this geometry (index tensors of this layer's shapes) or the index tensors
+   are recomputed from this layer's own geometry *)
+Theorem C15_conv_load_sound : forall rc fresh sv l',
+  conv_load rc fresh sv = Some l' ->
+  c_geom l' = c_geom fresh /\ gates_shape_eqb (c_gates l') (c_gates fresh) = true /\ c_gates l' = cs_gates sv /\
+  match cs_extra sv with
+  | None => c_pairs l' = c_pairs fresh /\ c_indices l' = c_indices fresh
+  | Some (og, pairs, idx) =>
+      c_pairs l' = pairs /\ pairs_fit fresh pairs = true /\
+      match og with
+      | Some g => g = c_geom fresh /\ c_indices l' = idx /\ index_shapes_eqb idx (c_indices fresh) = true
+      | None => c_indices l' = rc (c_geom fresh) pairs
+      end
+  end.
+Proof. exact conv_load_sound. Qed.
+Theorem C15_conv_rejects_geometry : forall rc fresh sv g pairs idx,
+  cs_extra sv = Some (Some g, pairs, idx) -> geom_eqb g (c_geom fresh) = false -> conv_load rc fresh sv = None.
+Proof. exact conv_load_rejects_geometry. Qed.
+Theorem C15_conv_rejects_pairs : forall rc fresh sv og pairs idx,
+  cs_extra sv = Some (og, pairs, idx) -> pairs_fit fresh pairs = false -> conv_load rc fresh sv = None.
+Proof. exact conv_load_rejects_pairs. Qed.
+
+(* learnable thermometer: the frozen mode is part of the saved state and comes back (F39); without it it would not *)
+Theorem C15_thermo_roundtrip : forall fresh t, length (th_raw fresh) = length (th_raw t) -> thermo_load fresh (thermo_save t) = Some t.
+Proof. exact thermo_state_roundtrip. Qed.
+Theorem C15_thermo_needs_flag :
+  thermo_load {| th_raw := [0; 0]%Z; th_frozen := false |} {| ts_raw := [1; 1]%Z; ts_extra := None |}
+  = Some {| th_raw := [1; 1]%Z; th_frozen := false |}.
+Proof. exact thermo_needs_flag. Qed.
+
 Eval compute in "PA:C15_state_roundtrip"%string. Print Assumptions C15_state_roundtrip.
 Eval compute in "PA:C15_wiring_persisted"%string. Print Assumptions C15_wiring_persisted.
 Eval compute in "PA:C15_needs_wiring"%string. Print Assumptions C15_needs_wiring.
 Eval compute in "PA:C15_lib_roundtrip"%string. Print Assumptions C15_lib_roundtrip.
 Eval compute in "PA:C15_load_configuration"%string. Print Assumptions C15_load_configuration.
+Eval compute in "PA:C15_persist_source"%string. Print Assumptions C15_persist_source.
+Eval compute in "PA:C15_dense_roundtrip"%string. Print Assumptions C15_dense_roundtrip.
+Eval compute in "PA:C15_dense_roundtrip_eval"%string. Print Assumptions C15_dense_roundtrip_eval.
+Eval compute in "PA:C15_dense_load_sound"%string. Print Assumptions C15_dense_load_sound.
+Eval compute in "PA:C15_dense_load_installs"%string. Print Assumptions C15_dense_load_installs.
+Eval compute in "PA:C15_dense_load_rejects"%string. Print Assumptions C15_dense_load_rejects.
+Eval compute in "PA:C15_conv_roundtrip"%string. Print Assumptions C15_conv_roundtrip.
+Eval compute in "PA:C15_conv_load_sound"%string. Print Assumptions C15_conv_load_sound.
+Eval compute in "PA:C15_conv_rejects_geometry"%string. Print Assumptions C15_conv_rejects_geometry.
+Eval compute in "PA:C15_conv_rejects_pairs"%string. Print Assumptions C15_conv_rejects_pairs.
+Eval compute in "PA:C15_thermo_roundtrip"%string. Print Assumptions C15_thermo_roundtrip.
+Eval compute in "PA:C15_thermo_needs_flag"%string. Print Assumptions C15_thermo_needs_flag.
